@@ -1,6 +1,7 @@
 import LlgVerif.Model.Svob
 import LlgVerif.Model.Ffi
 import LlgVerif.Model.Trie
+import LlgVerif.Model.Cache
 import Driver.Util
 open LlgVerif Drv
 
@@ -13,6 +14,10 @@ structure St where
   vobs : List (Nat × Svob) := []
   nodes : Array FlatNode := #[]
   vocab : Nat := 0
+  cache : CState Nat Nat (Nat × Nat × Bool) := { rows := [], ls := 0, pending := false, cache := none }
+  rb : RState Nat := { tokens := [], llmBytes := [], pBytes := [], byteTok := [], lexStack := [0], stopOk := false }
+  rbVocab : List (Nat × List UInt8) := []
+  rbEos : List Nat := []
 
 /-- DFA over byte classes: `cls[b]` in `0..k`, `trans[q*k + c]` = successor, `≥ n` = dead. -/
 structure Dfa where
@@ -81,6 +86,86 @@ def handleSvob (st : St) (args : List String) : St × String :=
     | [23, r, r2] => optReg st r (some (getReg st r2))
     | _ => (st, "bad-op")
 
+def symFresh (rows : List Nat) (ls : Nat) (p : Bool) : Nat × Nat × Bool := (rows.length, ls, p)
+
+def showKey (c : CState Nat Nat (Nat × Nat × Bool)) : String :=
+  match c.cache with
+  | some (l, i, p, _) => s!"k:{l}:{i}:{showBool p}"
+  | none => "none"
+
+def handleCache (st : St) (args : List String) : St × String :=
+  match args with
+  | ["init", rows, ls, p] =>
+    match parseNatList? rows, parseNat? ls with
+    | some rows, some ls =>
+      let c : CState Nat Nat (Nat × Nat × Bool) := { rows := rows, ls := ls, pending := p = "1", cache := none }
+      ({ st with cache := c }, showKey c)
+    | _, _ => (st, "bad-op")
+  | ["adv", rows, ls, p] =>
+    match parseNatList? rows, parseNat? ls with
+    | some rows, some ls =>
+      let r := cstep symFresh true st.cache (.advance rows ls (p = "1"))
+      ({ st with cache := r.2 }, showKey r.2)
+    | _, _ => (st, "bad-op")
+  | ["rb", keep, ls, p] =>
+    match parseNat? keep, parseNat? ls with
+    | some keep, some ls =>
+      let r := cstep symFresh true st.cache (.rollback keep ls (p = "1"))
+      ({ st with cache := r.2 }, showKey r.2)
+    | _, _ => (st, "bad-op")
+  | ["mask"] =>
+    let r := cstep symFresh true st.cache .mask
+    match r.1 with
+    | some (n, l, p) => ({ st with cache := r.2 }, s!"{showKey r.2} {n} {l} {showBool p}")
+    | none => (st, "bad-op")
+  | ["inv"] =>
+    let r := cstep symFresh true st.cache .invalidate
+    ({ st with cache := r.2 }, showKey r.2)
+  | _ => (st, "bad-op")
+
+def showRb (s : RState Nat) : String :=
+  s!"{s.tokens.length} {s.llmBytes.length} {s.byteTok.length} {s.lexStack.length - s.pBytes.length}"
+
+def rbVocabOf (st : St) : Vocab :=
+  { bytes := fun t => ((st.rbVocab.find? (·.1 = t)).map (·.2)).getD [], eos := st.rbEos }
+
+/-- rollback model: `init eos-list`, `tok id hexbytes` (register token bytes), `c id` commit,
+    `e id` commit EOS, `r k` rollback -/
+def handleRb (st : St) (args : List String) : St × String :=
+  match args with
+  | ["init", eos] =>
+    match parseNatList? eos with
+    | some eos => ({ st with rb := { tokens := [], llmBytes := [], pBytes := [], byteTok := [], lexStack := [0], stopOk := false }, rbVocab := [], rbEos := eos }, "ok")
+    | none => (st, "bad-op")
+  | ["tok", id, bs] =>
+    match parseNat? id, parseHex? bs with
+    | some id, some bs => ({ st with rbVocab := (id, bs) :: st.rbVocab }, "ok")
+    | _, _ => (st, "bad-op")
+  | ["c", id] =>
+    match parseNat? id with
+    | some id =>
+      let v := rbVocabOf st
+      let n := (v.decodeRaw id).length
+      let s' := st.rb.commit v id (List.replicate n 0)
+      ({ st with rb := s' }, s!"ok {showRb s'}")
+    | none => (st, "bad-op")
+  | ["e", id, extra] =>
+    match parseNat? id, parseNat? extra with
+    | some id, some extra => let s' := st.rb.commitEos id (List.replicate extra 0); ({ st with rb := s' }, s!"ok {showRb s'}")
+    | _, _ => (st, "bad-op")
+  | ["r", k] =>
+    match parseNat? k with
+    | some k =>
+      match st.rb.rollback (rbVocabOf st) k with
+      | some s' => ({ st with rb := s' }, s!"ok {showRb s'}")
+      | none => (st, "err")
+    | none => (st, "bad-op")
+  | ["declen", id] =>
+    match parseNat? id with
+    | some id => let v := rbVocabOf st; (st, s!"ok {v.tokenLen id} {(v.decodeRaw id).length}")
+    | none => (st, "bad-op")
+  | _ => (st, "bad-op")
+
 def handleTrie (st : St) (args : List String) : St × String :=
   match args with
   | ["build", ws] =>
@@ -133,6 +218,8 @@ def step (st : St) (line : String) : St × String :=
   | "maskinto" :: args => (st, handleInto args)
   | "trie" :: args => handleTrie st args
   | "svob" :: args => handleSvob st args
+  | "cache" :: args => handleCache st args
+  | "rb" :: args => handleRb st args
   | ["reset"] => ({}, "ok")
   | _ => (st, "bad-op")
 
